@@ -27,6 +27,8 @@ ASSUMPTIONS = [
 ]
 MIN_EVENTS = {"support_calls": 2000, "first_vertex_calls": 50, "pose_updates": 300}
 CASE_TIMEOUT_S = 60
+TIMEOUT_IS_VIOLATION = True   # "support_function(d) returns a point": a query that never returns does not
+HANG_S = 240
 
 
 def cases(tier):
@@ -53,6 +55,11 @@ def run_case(rng, idx, tier):
     if extra_dirs:
         dirs[3:3] = extra_dirs
         dirs[-1] = extra_dirs[0]
+    face_dirs = gen.mesh_face_normal_dirs(spec, rng)
+    if face_dirs:
+        # directions normal to a face (all its vertices equally extreme), before and after the pose update
+        dirs[6:6] = face_dirs[:2]
+        dirs.extend(face_dirs[2:])
     viol = []; worst = {"membership/L": 0.0, "extremality/L": 0.0}
     ev = {"support_calls": 0, "first_vertex_calls": 0, "pose_updates": 0}
     L = O.scene_L([orc])
